@@ -59,6 +59,7 @@ var (
 	zzCommits   int
 	zzSQLLog    []string
 	zzAfterCommit func(n int) // harness hook: inspect zzCommitted after each successful commit
+	zzBeforeLatest func(tx *zzTx) // harness hook: another session commits before the task reads its own position (READ COMMITTED: visible to the open transaction)
 )
 
 var zzErrFault = errors.New("injected fault")
@@ -548,6 +549,9 @@ func (tx *zzTx) QueryRow(ctx context.Context, sql string, args ...any) pgx.Row {
 	zzSQLLog = append(zzSQLLog, sql)
 	if zzFault("query:" + st.kind) {
 		return zzRowRes{err: zzErrFault}
+	}
+	if st.kind == "select-latest" && zzBeforeLatest != nil {
+		zzBeforeLatest(tx)
 	}
 	switch st.kind {
 	case "select-latest":
